@@ -199,4 +199,14 @@ def c11_c(ctx: Ctx):
     return out
 
 
-RULES = [c11_a, c11_b, c11_c]
+@rule("C11-d")
+def c11_d(ctx: Ctx):
+    """Detection path: check()/repair() read exactly the state point file (never a parked backup), so a job interrupted between the two renames of a re-key is reported (from C09-a)."""
+    from .c09 import c09_a
+    res = [r for r in c09_a(ctx) if "|reads" in r.construct or "error-mapping" in r.construct]
+    for r in res:
+        r.rule = "C11-d"
+    return res
+
+
+RULES = [c11_a, c11_b, c11_c, c11_d]
